@@ -66,7 +66,23 @@ class Run:
         return True
 
     # -- output
+    def _apply_instance_floors(self):
+        fp = os.path.join(VERIF, "tables", "instance_floors.json")
+        if not os.path.exists(fp):
+            return
+        with open(fp) as fh:
+            floors = json.load(fh).get(self.pid, {})
+        counts = {}
+        for i in self.instances:
+            if i["verdict"] in ("HOLDS", "VIOLATION", "KNOWN-FINDING"):
+                counts[i["rule"]] = counts.get(i["rule"], 0) + 1
+        crashed = any(i["rule"] == "engine" for i in self.instances)
+        for rule, mn in sorted(floors.items()):
+            if counts.get(rule, 0) < mn and not crashed:
+                self.inconclusive(rule, "instance-floor", "rule produced %d instances, at least %d were confirmed by hand on the pinned tree (a rule that matches nothing passes vacuously)" % (counts.get(rule, 0), mn))
+
     def finish(self):
+        self._apply_instance_floors()
         out = sys.stdout
         viol = [i for i in self.instances if i["verdict"] == "VIOLATION"]
         inc = [i for i in self.instances if i["verdict"] == "INCONCLUSIVE"]
@@ -137,6 +153,7 @@ class Run:
                 "checker_cmd": "./check %s --tier %s" % (self.pid, self.tier),
                 "trusted_base": self.trusted,
                 "analysed": self.analysed,
+                "instances_per_rule": {r: sum(1 for i in self.instances if i["rule"] == r and i["verdict"] in ("HOLDS", "VIOLATION", "KNOWN-FINDING")) for r in sorted(set(i["rule"] for i in self.instances))},
                 "known_findings_matched": nknown,
                 "inconclusive": len(inc),
                 "exhaustive": True,
